@@ -1,22 +1,35 @@
 import NessaiVerif.Model.Results
 import NessaiVerif.Gen.Results
 import NessaiVerif.Proofs.Results
+import NessaiVerif.Proofs.ResultsQuad
 import NessaiVerif.Proofs.ResultsIns
 import NessaiVerif.Props.C02
 import NessaiVerif.Props.C03
 import NessaiVerif.Props.C04
 /-
 C05 — returned results are mutually consistent and faithful to the model.
-Property theorems only (lemmas: Proofs/Results.lean, Proofs/ResultsIns.lean; C02/C03/C04 are re-used).
+Property theorems only (lemmas: Proofs/Results.lean, Proofs/ResultsQuad.lean, Proofs/ResultsIns.lean; C02/C03/C04
+are re-used).
 
 Standard sampler: `Results.NS` (Model/Results.lean) is the bookkeeping of `NestedSampler` that determines
 what is returned; `Reachable n s` = "populated with n live points, then any number of `consume_sample`
-calls" (checkpoint/resume is the identity on this state, so this covers runs resumed any number of times);
-`nestedSamplingLoop maxIt s below steps` = one call of `nested_sampling_loop` from that state.
-Importance sampler: `insZ`/`insPostW`/`insVar` are `_INSIntegralState` in the linear domain.
+calls"; `nestedSamplingLoop maxIt s below steps` = one call of `nested_sampling_loop` from that state;
+`runSegments s segs` = a chain of such calls (the run resumed and run again, finished, capped or not).
+Resuming enters the theorems as the identity on this state.  That is true for a checkpoint written at an
+ITERATION BOUNDARY (the periodic checkpoint in `update_state`, the final one in `nested_sampling_loop`) — the
+only kind the tie of harness/c05.py produces.  It is FALSE for a checkpoint written in the middle of
+`consume_sample` (a signal handler firing between `state.increment(worst)` and the insertion — known finding
+F4, property C13 — or `checkpoint_on_training=True` checkpointing from `train_proposal` inside
+`consume_sample` — known finding F25, property C12): a run resumed from such a file records the worst point
+twice.  Those histories are outside these theorems.
+Importance sampler: `insZ`/`insPostW`/`insVar` are `_INSIntegralState` in the linear domain; the theorems
+about them are consequences of those definitions (definitional + algebra), tied to the code by the
+correspondence and the oracle of harness/c05.py, which recompute them from the returned samples of real runs.
+Result tables: `sameSource` compares the SYNTAX of the translated source expressions (after inlining and
+resolving conditionals), not run-time values; equality of the values is what the harness checks on real runs.
 PARTIAL: the clause "stored logL/logP equal the model evaluated at the sample" speaks about the user's
 function; only its bookkeeping half is a theorem (`stored_values_are_evaluated_values_partial`), the rest is
-checked by the oracle of harness/c05.py on real runs.
+checked by the oracle on real runs.
 -/
 namespace NessaiVerif.C05
 open NessaiVerif.Results NessaiVerif.Quad
@@ -26,8 +39,8 @@ variable {K : Type} [LinearOrder K]
 
 /-- **Counts.**  A completed `nested_sampling_loop` returns `iterations + nlive` nested samples when it
 finalised, and exactly `iterations` when it did not — and it can only end un-finalised because the
-iteration cap was reached with the stopping test still false.  Any reachable start state (fresh or resumed),
-any cap, any candidate streams. -/
+iteration cap was reached with the stopping test still false.  Any reachable start state (fresh or resumed
+at an iteration boundary), any cap, any candidate streams. -/
 theorem nested_count (n : Nat) (s : NS K) (hs : Reachable n s) (maxIt : Option Nat) (below : Bool)
     (steps : List (List K × Bool)) (r : NS K) (h : nestedSamplingLoop maxIt s below steps = .ok r) :
     r.nested.length = r.iteration + (if r.finalised then n else 0) ∧
@@ -35,8 +48,22 @@ theorem nested_count (n : Nat) (s : NS K) (hs : Reachable n s) (maxIt : Option N
   have sp := run_spec n s hs maxIt below steps r h
   exact ⟨sp.count, sp.cut⟩
 
-example : (nestedSamplingLoop (K := Int) none (populate [3, 1, 2]) false [([0, 5], false), ([1, 4], true)]).toOption.map
-    (fun r => (r.nested.map (·.logL), r.iteration, r.finalised)) = some ([1, 2, 3, 4, 5], 2, true) := by decide +kernel
+/-- a concrete finalised run (3 live points, 2 iterations) … -/
+example : nestedSamplingLoop (K := Int) none (populate [3, 1, 2]) false [([0, 5], false), ([1, 4], true)] =
+    .ok ⟨3, none, [⟨1, 0⟩, ⟨2, 0⟩, ⟨3, 0⟩, ⟨4, 2⟩, ⟨5, 1⟩],
+      [(1, none), (2, none), (3, some 3), (4, some 2), (5, some 1)], 2, true⟩ := by decide +kernel
+
+/-- … and the theorem applied to it, and to the same run cut short by `max_iteration = 1` -/
+example : ∃ r : NS Int, r.nested.length = r.iteration + (if r.finalised then 3 else 0) ∧ r.finalised = true :=
+  ⟨_, (nested_count 3 (populate [3, 1, 2]) (.pop _ rfl) none false [([0, 5], false), ([1, 4], true)] _
+    (by decide +kernel : nestedSamplingLoop (K := Int) none (populate [3, 1, 2]) false [([0, 5], false), ([1, 4], true)] =
+      .ok ⟨3, none, [⟨1, 0⟩, ⟨2, 0⟩, ⟨3, 0⟩, ⟨4, 2⟩, ⟨5, 1⟩],
+        [(1, none), (2, none), (3, some 3), (4, some 2), (5, some 1)], 2, true⟩)).1, rfl⟩
+
+example (r : NS Int)
+    (h : nestedSamplingLoop (some 1) (populate [3, 1, 2]) false [([0, 5], false), ([1, 4], true)] = .ok r)
+    (hcut : r.finalised = false) : capReached (some 1) r.iteration = true :=
+  (nested_count 3 _ (.pop _ rfl) (some 1) false _ r h).2 hcut
 
 example : (nestedSamplingLoop (K := Int) (some 1) (populate [3, 1, 2]) false [([0, 5], false), ([1, 4], true)]).toOption.map
     (fun r => (r.nested.map (·.logL), r.iteration, r.finalised)) = some ([1], 1, false) := by decide +kernel
@@ -47,7 +74,10 @@ theorem nested_sorted (n : Nat) (s : NS K) (hs : Reachable n s) (maxIt : Option 
     r.nested.Pairwise (fun a b => a.logL ≤ b.logL) :=
   (run_spec n s hs maxIt below steps r h).sorted
 
-example : Reachable (K := Int) 3 (populate [3, 1, 2]) := .pop _ rfl
+example (r : NS Int)
+    (h : nestedSamplingLoop none (populate [3, 1, 2]) false [([0, 5], false), ([1, 4], true)] = .ok r) :
+    r.nested.Pairwise (fun a b => a.logL ≤ b.logL) :=
+  nested_sorted 3 _ (.pop _ rfl) none false _ r h
 
 /-- The acceptance rule `logL > logLmin` is what keeps the order: a candidate at or below the current
 minimum cannot even be inserted (NumPy's slice assignment in `insert_live_point` fails), and the rule never
@@ -64,6 +94,11 @@ theorem birth_lt (n : Nat) (s : NS K) (hs : Reachable n s) (maxIt : Option Nat) 
     (steps : List (List K × Bool)) (r : NS K) (h : nestedSamplingLoop maxIt s below steps = .ok r) :
     ∀ p ∈ r.nested, ∃ b, r.logLs[p.it]? = some b ∧ ltExt b p.logL :=
   (run_spec n s hs maxIt below steps r h).birth
+
+example (r : NS Int)
+    (h : nestedSamplingLoop none (populate [3, 1, 2]) false [([0, 5], false), ([1, 4], true)] = .ok r) :
+    ∀ p ∈ r.nested, ∃ b, r.logLs[p.it]? = some b ∧ ltExt b p.logL :=
+  birth_lt 3 _ (.pop _ rfl) none false _ r h
 
 example : (nestedSamplingLoop (K := Int) none (populate [3, 1, 2]) false [([0, 5], false), ([1, 4], true)]).toOption.map
     (fun r => (r.nested.map (·.it), r.births)) =
@@ -82,6 +117,11 @@ theorem state_sees_returned_samples (n : Nat) (s : NS K) (hs : Reachable n s) (m
   simp only [List.map_map] at this
   simp only [NS.logLs]
   congr 1
+
+example (r : NS Int)
+    (h : nestedSamplingLoop none (populate [3, 1, 2]) false [([0, 5], false), ([1, 4], true)] = .ok r) :
+    r.logLs = none :: r.nested.map (fun p => some p.logL) :=
+  (state_sees_returned_samples 3 _ (.pop _ rfl) none false _ r h).1
 
 example : (nestedSamplingLoop (K := Int) none (populate [3, 1, 2]) false [([0, 5], false), ([1, 4], true)]).toOption.map
     (fun r => (r.logLs, r.nliveSeen)) =
@@ -106,46 +146,17 @@ theorem evidence_recomputable {F : Type} [Field F] (shrink : Nat → F) (lin : K
       st.postW = weights Ls ((scheduleIncr r.iteration n).map shrink)) ∧
     (r.finalised = false →
       st.Z = rectOnePass Ls (vols ((List.replicate r.iteration n).map shrink)) ∧
-      st.postW = weights Ls ((List.replicate r.iteration n).map shrink)) := by
-  have sp := run_spec n s hs maxIt below steps r h
-  have hc := state_closed shrink n (r.calls.map fun c => (lin c.1, c.2))
-  have hls : (r.calls.map fun c => ((lin c.1, c.2) : F × Option Nat)).map (·.1) = r.nested.map fun p => lin p.logL := by
-    have := congrArg (List.map lin) sp.callsL
-    simpa [List.map_map, Function.comp_def] using this
-  have hres : resolved n (r.calls.map fun c => ((lin c.1, c.2) : F × Option Nat)) = r.nliveSeen := by
-    simp [resolved, NS.nliveSeen, sp.nlive, Function.comp_def]
-  simp only [hls, hres] at hc
-  obtain ⟨h1, h2, _, h4, _, _⟩ := hc
-  constructor
-  · intro hfin
-    have hN := sp.callsN
-    rw [hfin] at hN
-    simp only [↓reduceIte] at hN
-    rw [hN] at h1 h2
-    refine ⟨?_, h1, h2⟩
-    rw [h1, h2]
-    have hlen : (r.nested.map fun p => lin p.logL).length = r.iteration + n := by
-      rw [List.length_map, sp.count, hfin]; simp
-    have hne : (r.nested.map fun p => lin p.logL) ≠ [] := by
-      intro e; rw [e] at hlen; simp at hlen; omega
-    obtain ⟨last, hlast⟩ : ∃ last, (r.nested.map fun p => lin p.logL).getLast? = some last := by
-      cases hq : (r.nested.map fun p => lin p.logL).getLast? with
-      | none => exact absurd (List.getLast?_eq_none_iff.mp hq) hne
-      | some x => exact ⟨x, rfl⟩
-    have hD : (r.nested.map fun p => lin p.logL).getLastD 0 = last := by
-      rw [List.getLastD_eq_getLast?, hlast]; rfl
-    unfold computeWeights
-    simp only [C02.schedule_eq _ r.iteration n hn hlen, hlast]
-    simp only [evidence, weights, closedL, closedX, vols, volsFrom, hD]
-    rfl
-  · intro hfin
-    have hN := sp.callsN
-    rw [hfin] at hN
-    simp only [Bool.false_eq_true, ↓reduceIte] at hN
-    rw [hN] at h2 h4
-    exact ⟨h4, h2⟩
+      st.postW = weights Ls ((List.replicate r.iteration n).map shrink)) :=
+  evidence_of_spec shrink lin n hn r (run_spec n s hs maxIt below steps r h).toResult
 
-example : (1 : Nat) ≤ 3 ∧ Reachable (K := Int) 3 (populate [3, 1, 2]) := ⟨by decide, .pop _ rfl⟩
+/-- applied: likelihood codes 1..5 read as the rationals 1..5, shrinkage n/(n+1) -/
+example (r : NS Int)
+    (h : nestedSamplingLoop none (populate [3, 1, 2]) false [([0, 5], false), ([1, 4], true)] = .ok r)
+    (hfin : r.finalised = true) :
+    computeWeights (tOfN : Nat → ℚ) (r.nested.map fun p => (p.logL : ℚ)) (.int 3) =
+      .ok (((St.init 3 : St ℚ).incrMany tOfN (r.calls.map fun c => ((c.1 : ℚ), c.2))).finalise,
+           ((St.init 3 : St ℚ).incrMany tOfN (r.calls.map fun c => ((c.1 : ℚ), c.2))).postW) :=
+  ((evidence_recomputable (tOfN : Nat → ℚ) (fun x : Int => (x : ℚ)) 3 (by decide) _ (.pop _ rfl) none false _ r h).1 hfin).1
 
 /-- `nlive ≥ 1` is needed: with no live points a "run" that stops at once returns no samples and the
 one-pass recomputation has nothing to close the integral with (`samples[-1]` fails). -/
@@ -153,6 +164,42 @@ theorem evidence_recomputable_fails_without :
     (nestedSamplingLoop (K := Int) none (populate []) true []).toOption.map (fun r => (r.finalised, r.nested.length)) =
       some (true, 0) ∧
     (computeWeights (K := Rat) tOfN [] (.int 0)).toOption = none := by decide +kernel
+
+/-- **Runs resumed and run again.**  A chain of `nested_sampling_loop` calls — each on the state the previous
+one left behind, i.e. the run resumed from a checkpoint written at an iteration boundary and run again, whether
+the previous call finalised (then the state is returned unchanged: "Run has already finished!"), was cut
+short by its cap (then sampling continues: one more iteration at least) or is the first — hands back a state with
+the same guarantees as a single call: count `iterations + (nlive if finalised)`, non-decreasing likelihoods,
+births strictly below, and an integral state that saw exactly the returned likelihoods, so evidence and weights
+are those of `evidence_recomputable`. -/
+theorem resumed_chain_results {F : Type} [Field F] (shrink : Nat → F) (lin : K → F)
+    (n : Nat) (hn : 1 ≤ n) (s : NS K) (hs : Reachable n s)
+    (segs : List (Option Nat × Bool × List (List K × Bool))) (r : NS K) (h : runSegments s segs = .ok r) :
+    r.nested.length = r.iteration + (if r.finalised then n else 0) ∧
+    r.nested.Pairwise (fun a b => a.logL ≤ b.logL) ∧
+    (∀ p ∈ r.nested, ∃ b, r.logLs[p.it]? = some b ∧ ltExt b p.logL) ∧
+    r.calls.map (·.1) = r.nested.map (·.logL) ∧
+    (let st := (St.init n : St F).incrMany shrink (r.calls.map fun c => (lin c.1, c.2))
+     let Ls := r.nested.map fun p => lin p.logL
+     (r.finalised = true → computeWeights shrink Ls (.int n) = .ok (st.finalise, st.postW)) ∧
+     (r.finalised = false → st.Z = rectOnePass Ls (vols ((List.replicate r.iteration n).map shrink)))) := by
+  have sp := chain_spec n segs s hs r h
+  have ev := evidence_of_spec shrink lin n hn r sp
+  exact ⟨sp.count, sp.sorted, sp.birth, sp.callsL, fun hf => (ev.1 hf).1, fun hf => (ev.2 hf).1⟩
+
+/-- a capped run (1 iteration), resumed: one more iteration under the same cap, resumed again with the cap
+lifted: finishes; resumed once more: unchanged -/
+example : (runSegments (K := Int) (populate [3, 1, 2])
+    [(some 1, false, [([0, 5], false)]), (some 1, false, [([1, 4], false)]), (none, false, [([6], true)]),
+     (none, true, [])]).toOption.map (fun r => (r.nested.map (·.logL), r.iteration, r.finalised)) =
+      some ([1, 2, 3, 4, 5, 6], 3, true) := by decide +kernel
+
+example (r : NS Int)
+    (h : runSegments (populate [3, 1, 2])
+      [(some 1, false, [([0, 5], false)]), (some 1, false, [([1, 4], false)]), (none, false, [([6], true)]),
+       (none, true, [])] = .ok r) :
+    r.nested.length = r.iteration + (if r.finalised then 3 else 0) :=
+  (resumed_chain_results (tOfN : Nat → ℚ) (fun x : Int => (x : ℚ)) 3 (by decide) _ (.pop _ rfl) _ r h).1
 
 /-- **Stored likelihoods are evaluated likelihoods** (PARTIAL — the bookkeeping half of "every returned
 sample's stored log-likelihood equals the model evaluated at that sample").  No step of the sampler alters or
@@ -179,6 +226,12 @@ theorem stored_values_are_evaluated_values_partial (s : NS K) (maxIt : Option Na
       · rw [finalise_points s' r h]; exact ho
       · simp only [Except.ok.injEq] at h; subst h; exact ho
 
+example (r : NS Int)
+    (h : nestedSamplingLoop none (populate [3, 1, 2]) false [([0, 5], false), ([1, 4], true)] = .ok r) :
+    ∀ p ∈ r.points, (∃ q ∈ (populate [3, 1, 2] : NS Int).points, q.logL = p.logL) ∨
+      ∃ st ∈ [(([0, 5] : List Int), false), ([1, 4], true)], p.logL ∈ st.1 :=
+  stored_values_are_evaluated_values_partial _ none false _ r h
+
 example : (nestedSamplingLoop (K := Int) none (populate [3, 1, 2]) false [([0, 5], false), ([1, 4], true)]).toOption.map
     (fun r => r.points.map (·.logL)) = some [1, 2, 3, 4, 5] := by decide +kernel
 
@@ -188,7 +241,9 @@ end standard
 section ins
 variable {K : Type} [Field K]
 
-/-- **`_INSIntegralState` spelled out.**  With `w_i = L_i·W_i` the importance weights of the `N ≥ 1`
+/-- **`_INSIntegralState` spelled out** (DEFINITIONAL + algebra; tied to the code by the correspondence and the
+oracle, which recompute these quantities from the returned samples of real runs and on a boundary stream against
+the real class).  With `w_i = L_i·W_i` the importance weights of the `N ≥ 1`
 returned samples (`exp(logL + logW)`) and `Σ w ≠ 0`: the evidence is the mean weight; the posterior weight
 of sample `i` is `w_i / Z = N·w_i / Σ w` (they sum to `N`, not to one — the code subtracts `logZ`, which
 already contains `-log N`); and for `N ≥ 2` the square of the reported log-evidence error is
@@ -226,12 +281,17 @@ theorem ins_evidence_def [CharZero K] (w : List K) (hN : w ≠ []) (hZ : sumL w 
 example : ([1, 3] : List ℚ) ≠ [] ∧ sumL ([1, 3] : List ℚ) ≠ 0 ∧ insZ ([1, 3] : List ℚ) = 2 ∧
     insPostW ([1, 3] : List ℚ) = [1 / 2, 3 / 2] ∧ insRelVar ([1, 3] : List ℚ) = 1 / 4 := by decide +kernel
 
+/-- applied to the weights 1, 3: the posterior weights sum to N = 2 -/
+example : sumL (insPostW ([1, 3] : List ℚ)) = (([1, 3] : List ℚ).length : ℚ) :=
+  (ins_evidence_def ([1, 3] : List ℚ) (by decide) (by decide +kernel)).2.2.1
+
 /-- Without `Σ w ≠ 0` (every returned weight zero: all `logL + logW = -inf`) the posterior weights are
 `0/0` and do not sum to `N`. -/
 theorem ins_evidence_def_fails_without :
     sumL (insPostW ([0, 0] : List Rat)) ≠ (([0, 0] : List Rat).length : Rat) := by decide +kernel
 
-/-- **The estimator depends on the returned samples as a multiset only.**  `update_evidence(nested, live)`
+/-- **The estimator depends on the returned samples as a multiset only** (a property of the definitions
+`insZ`/`insVar`; that the code computes these is tied by the correspondence/oracle).  `update_evidence(nested, live)`
 inside the loop and `update_evidence(samples)` at finalisation give the same evidence, variance and relative
 variance whenever `samples` is a rearrangement of `nested ++ live` (C04: the two index sets partition the
 store) — so the reported numbers are those of the returned samples, in whatever order they are stored. -/
@@ -247,10 +307,11 @@ theorem ins_estimator_order_free (samples nested live : List (K × K)) (h : samp
   unfold insRelVar
   rw [insZ_perm _ _ hp, insVar_perm _ _ hp]
 
-example : ([((2 : ℚ), (1 : ℚ)), (1, 3)] : List (ℚ × ℚ)).Perm ([(1, 3)] ++ [(2, 1)]) := by decide
+example : insZ (insWeights [((2 : ℚ), (1 : ℚ)), (1, 3)] []) = insZ (insWeights [((1 : ℚ), (3 : ℚ))] [(2, 1)]) :=
+  (ins_estimator_order_free [((2 : ℚ), (1 : ℚ)), (1, 3)] [(1, 3)] [(2, 1)] (by decide)).1
 
 /-- With non-negative weights, one of them positive, the evidence is positive (finite `logZ`) and every
-posterior weight is non-negative. -/
+posterior weight is non-negative (about the definitions; tied as above). -/
 theorem ins_evidence_pos [LinearOrder K] [IsStrictOrderedRing K] (w : List K) (hw : ∀ x ∈ w, 0 ≤ x)
     (hex : ∃ x ∈ w, 0 < x) : 0 < insZ w ∧ ∀ p ∈ insPostW w, 0 ≤ p := by
   have hs := sumL_pos w hw hex
@@ -265,10 +326,9 @@ theorem ins_evidence_pos [LinearOrder K] [IsStrictOrderedRing K] (w : List K) (h
   obtain ⟨x, hx, rfl⟩ := List.mem_map.mp hp
   exact div_nonneg (hw x hx) (le_of_lt hz)
 
-example : (∀ x ∈ ([0, 2] : List ℚ), 0 ≤ x) ∧ ∃ x ∈ ([0, 2] : List ℚ), 0 < x := by
-  constructor
-  · intro x hx; simp at hx; rcases hx with rfl | rfl <;> norm_num
-  · exact ⟨2, by simp, by norm_num⟩
+example : 0 < insZ ([0, 2] : List ℚ) :=
+  (ins_evidence_pos ([0, 2] : List ℚ)
+    (by intro x hx; simp at hx; rcases hx with rfl | rfl <;> norm_num) ⟨2, by simp, by norm_num⟩).1
 
 /-- **Sample count.**  In every state the importance sampler's bookkeeping can reach (C03: any number of
 levels, any batch sizes, with or without the independent set) the number of returned samples — the
@@ -279,6 +339,13 @@ theorem ins_n_samples [CharZero K] [DecidableEq K] (D : Nat → Nat → K) (hD0 
   (C03.weights_are_fractions D hD0 s h).2.2.symm
 
 example : (Meta.populate (K := ℚ) false [(1, 1), (2, 1)] []).counts.sum = 2 := by decide +kernel
+
+/-- applied to the initial population of two samples (every density 1) -/
+example : (if (Meta.populate (K := ℚ) false [(1, 1), (2, 1)] []).useIid
+      then (Meta.populate (K := ℚ) false [(1, 1), (2, 1)] []).iid.length
+      else (Meta.populate (K := ℚ) false [(1, 1), (2, 1)] []).train.length) =
+    (Meta.populate (K := ℚ) false [(1, 1), (2, 1)] []).counts.sum :=
+  ins_n_samples (fun _ _ => (1 : ℚ)) (fun _ => rfl) _ (.pop false [(1, 1), (2, 1)] [] (by simp) (by simp))
 
 /-- **Order.**  The sample store of the importance sampler (C04: every history of insertions, threshold
 updates, removals and finalisation that did not raise) holds its samples in non-decreasing likelihood order;
@@ -294,6 +361,13 @@ example : (Ordered.run { strict := false, replAll := false }
     [.init [(⟨3, 1⟩, 1), (⟨1, 2⟩, 2), (⟨2, 3⟩, 3)], .thr 2, .remove,
      .add [(⟨2, 4⟩, 4), (⟨0, 5⟩, 5), (⟨5, 6⟩, 6)], .remove, .finalise]).toOption.map
       (fun s => (s.samples.getD []).map (·.key)) = some [0, 1, 2, 2, 3, 5] := by decide +kernel
+
+example (s : Ordered.OS)
+    (hok : Ordered.run { strict := false, replAll := false }
+      (.init [(⟨3, 1⟩, 1), (⟨1, 2⟩, 2), (⟨2, 3⟩, 3)] ::
+        [.thr 2, .remove, .add [(⟨2, 4⟩, 4), (⟨0, 5⟩, 5), (⟨5, 6⟩, 6)], .remove, .finalise]) = .ok s) :
+    ∃ smp, s.samples = some smp ∧ smp.Pairwise (fun a b => a.key ≤ b.key) :=
+  ins_samples_sorted false false _ _ (by decide) s hok
 
 end ins
 
@@ -327,13 +401,16 @@ def insRedrawPairs : List (String × String) :=
    ("log_evidence", "ns:final_log_evidence"), ("log_evidence_error", "ns:final_log_evidence_error"),
    ("log_posterior_weights", "ns:final_log_posterior_weights"), ("samples", "ns:final_samples")]
 
-/-- both entries exist, neither resolves to `None`, and they resolve to the same expression under `cfg` -/
+/-- both entries exist, neither resolves to `None`, and they resolve to the same expression under `cfg`.
+This compares SOURCE EXPRESSIONS (syntax after inlining forwarding properties and resolving the conditionals),
+not run-time values: two reads of the same expression are assumed to give the same value — which is exactly what
+the harness checks on real runs (repeated, re-ordered reads of every public quantity). -/
 def sameSource (cfg : Cfg) (result exposed : List (String × E)) (p : String × String) : Bool :=
   match lookup result p.1, lookup exposed p.2 with
   | some a, some b => eval cfg a == eval cfg b && eval cfg a != E.none
   | _, _ => false
 
-/-- **Result keys read the sampler's attributes.**  In the current source, every result-bearing entry of
+/-- **Result keys read the sampler's attributes** (syntactic, see `sameSource`).  In the current source, every result-bearing entry of
 `NestedSampler.get_result_dictionary` (evidence, its error, nested samples, posterior weights, birth
 likelihoods, insertion indices, information) reads — after inlining forwarding properties — the very
 expression that `FlowSampler.run_standard_sampler` stores/exposes and the sampler object reports.  For the
